@@ -476,6 +476,10 @@ func (c *c12) chains() []c12Chain {
 	if err != nil {
 		panic(err)
 	}
+	var viaPre []ct.ASN1Cert // [precertificate, Precertificate Signing Certificate (CT EKU), final CA]
+	for _, d := range verifkit.PreIssuerChain() {
+		viaPre = append(viaPre, ct.ASN1Cert{Data: d})
+	}
 	return []c12Chain{
 		{"cert", false, cert}, {"cert", false, cert}, {"cert", false, cert}, {"cert", false, cert}, {"cert", false, cert}, {"cert", false, cert},
 		{"precert", true, pre}, {"precert", true, pre}, {"precert", true, pre},
@@ -485,6 +489,8 @@ func (c *c12) chains() []c12Chain {
 		{"cert-as-precert", true, cert},
 		{"precert-without-issuer", true, pre[:1]},
 		{"garbage-cert", false, []ct.ASN1Cert{{Data: []byte{0x30, 0x03, 1, 2, 3}}}},
+		{"precert-via-pre-issuer", true, viaPre}, {"precert-via-pre-issuer", true, viaPre}, {"precert-via-pre-issuer", true, viaPre},
+		{"precert-via-pre-issuer-without-ca", true, viaPre[:2]},
 		{"lax-only-cert", false, []ct.ASN1Cert{{Data: lax}, cert[1]}},
 		{"lax-only-cert", false, []ct.ASN1Cert{{Data: lax}, cert[1]}},
 		{"lax-only-cert+trailing-bytes", false, []ct.ASN1Cert{{Data: append(append([]byte(nil), lax...), 0xde, 0xad, 0xbe, 0xef)}, cert[1]}},
@@ -536,6 +542,15 @@ func c12ChainToks(ch c12Chain) string {
 				if st, err := verifkit.StripExtension(tbs, verifkit.OIDPoison); err == nil {
 					stripped = verifkit.Hex(st)
 				}
+				if ch.pre && len(ch.chain) >= 3 {
+					var der [][]byte
+					for _, x := range ch.chain {
+						der = append(der, x.Data)
+					}
+					if _, _, _, t2, ok := verifkit.IndependentEntry(der, true, verifkit.OIDPoison); ok {
+						stripped = verifkit.Hex(t2)
+					}
+				}
 			}
 		}
 		toks = append(toks, verifkit.Hex(raw), verifkit.B(fatal), verifkit.Hex(tbs), verifkit.Hex(spki), verifkit.B(pre))
@@ -576,7 +591,7 @@ func (c *c12) add() {
 		class := "valid"
 		body := []byte(nil)
 		sel := r.Intn(52)
-		if strings.HasSuffix(ch.name, "+trailing-bytes") && r.Bool() {
+		if (strings.HasSuffix(ch.name, "+trailing-bytes") && r.Bool()) || (ch.name == "precert-via-pre-issuer" && r.Intn(3) == 0) {
 			sel = 13
 		}
 		switch sel {
@@ -601,6 +616,15 @@ func (c *c12) add() {
 				f.sig = sign(signer, ch, f.ts, append([]byte{7}, ext...))
 			}
 		case 13:
+			if ch.name == "precert-via-pre-issuer" {
+				class = "signature-over-pre-issuer-key-hash"
+				_, et, cert, _, tbs := c12Leaf(ch, f.ts)
+				if sc, err := stdx509.ParseCertificate(ch.chain[1].Data); err == nil {
+					h := sha256.Sum256(sc.RawSubjectPublicKeyInfo)
+					f.sig = c12DS(4, c12SigAlg(signer), signer.Sign(4, verifkit.SCTSigInput(0, f.ts, et, cert, h[:], tbs, ext)))
+				}
+				break
+			}
 			if strings.HasSuffix(ch.name, "+trailing-bytes") {
 				class = "signature-over-prefix-of-submitted-certificate"
 				d := ch.chain[0].Data
@@ -1409,6 +1433,96 @@ func (c *c12) statusMatrix() {
 	}
 }
 
+// ---------------------------------------------------------------------------------------------- temporal (multi-shard) client
+
+// temporalRoots: TemporalLogClient.GetAcceptedRoots over 2-3 shards, each shard with its own scripted transport and response
+// class: one failing shard makes the whole call fail — with an error and WITHOUT a partially filled result.
+func (c *c12) temporalRoots() {
+	r := c.r
+	good := func() []byte {
+		var certs []string
+		for j := r.Intn(3); j >= 0; j-- {
+			certs = append(certs, b64(r.Bytes(1+r.Intn(6))))
+		}
+		j, _ := json.Marshal(map[string]interface{}{"certificates": certs})
+		return j
+	}
+	classes := []func() c12Rsp{
+		func() c12Rsp { return c12Rsp{status: 200, body: good()} },
+		func() c12Rsp { return c12Rsp{status: 200, body: good()} },
+		func() c12Rsp { return c12Rsp{status: 200, body: good()} },
+		func() c12Rsp { return c12Rsp{status: 500, body: []byte("oops")} },
+		func() c12Rsp { return c12Rsp{status: 404, body: good()} },
+		func() c12Rsp { return c12Rsp{status: 200, body: []byte(`{"certificates":["%%"]}`)} },
+		func() c12Rsp { b := good(); return c12Rsp{status: 200, body: b[:len(b)/2]} },
+		func() c12Rsp { return c12Rsp{status: 203, body: good()} },
+		func() c12Rsp { return c12Rsp{netErr: true} },
+	}
+	for it := 0; it < verifkit.N(120, 3000); it++ {
+		n := 2 + r.Intn(2)
+		rsps := make([]c12Rsp, n)
+		var toks []string
+		allOK := true
+		for i := range rsps {
+			rsps[i] = classes[r.Intn(len(classes))]()
+			var dec ct.GetRootsResponse
+			jsonOK := !rsps[i].netErr && json.NewDecoder(bytes.NewReader(rsps[i].body)).Decode(&dec) == nil
+			b64ok := true
+			for _, s := range dec.Certificates {
+				if _, e := base64.StdEncoding.DecodeString(s); e != nil {
+					b64ok = false
+				}
+			}
+			st := rsps[i].status
+			if rsps[i].netErr {
+				st = 0
+			}
+			ok := st == 200 && jsonOK && b64ok
+			allOK = allOK && ok
+			toks = append(toks, fmt.Sprintf("%d %s %s", st, verifkit.B(jsonOK), verifkit.B(b64ok)))
+		}
+		var roots []ct.ASN1Cert
+		var err error
+		p := ""
+		synctest.Run(func() {
+			ctx, cancel := context.WithTimeout(context.Background(), time.Hour)
+			defer cancel()
+			tlc := &TemporalLogClient{}
+			for i := range rsps {
+				sc := &c12Script{rsps: []c12Rsp{rsps[i]}, cancel: cancel}
+				cl, e := New(fmt.Sprintf("http://shard%d.example/", i), &http.Client{Transport: sc}, jsonclient.Options{Logger: c12Silent{}})
+				if e != nil {
+					p = e.Error()
+					return
+				}
+				tlc.Clients = append(tlc.Clients, cl)
+				tlc.intervals = append(tlc.intervals, interval{})
+			}
+			p = verifkit.Guard(func() { roots, err = tlc.GetAcceptedRoots(ctx) })
+			synctest.Wait()
+		})
+		key := fmt.Sprintf("troots shards=%d", n)
+		ans := "ok"
+		switch {
+		case p != "":
+			ans = "panic"
+			c.out.Fail(key+" panic", p)
+		case err != nil:
+			ans = "err"
+			if roots != nil {
+				c.out.Fail("troots partial-result", fmt.Sprintf("%d roots returned together with the error %q (shards: %s)", len(roots), err.Error(), strings.Join(toks, " | ")))
+			}
+		default:
+			if !allOK {
+				c.out.Fail(key+" failing-shard-ignored", strings.Join(toks, " | "))
+			}
+		}
+		c.out.T(fmt.Sprintf("troots %d %s", n, strings.Join(toks, " ")), ans)
+		c.out.Count("class:temporal-roots")
+		c.out.Count("outcome:" + ans)
+	}
+}
+
 // c12CertCoversField: the parsed (pre-)certificate of a returned entry must be the parse of the WHOLE certificate / TBS field of
 // the leaf — an entry whose parsed certificate covers only a prefix of the field is inconsistent with leaf_input.
 func c12CertCoversField(out *verifkit.Out, key string, e *ct.LogEntry) {
@@ -1449,4 +1563,5 @@ func TestVerifC12(t *testing.T) {
 	c.entries()
 	c.statusMatrix()
 	c.histories()
+	c.temporalRoots()
 }
